@@ -63,13 +63,17 @@ TStart == /\ Ev.e = "Start"
           /\ pst' = [pst EXCEPT ![Ev.p] = "running"]
           /\ starts' = [starts EXCEPT ![Ev.p] = @ + 1]
           /\ where' = [where EXCEPT ![Ev.p] = [tidc |-> Ev.tidc, loop |-> Ev.loop, argsok |-> Ev.argsok]]
-          /\ h' = [h EXCEPT !.stepafter = @ \/ (Coroutine(Ev.p) /\ After)]
+          \* (a coroutine payload that starts while another payload of its flavour is between two
+          \*  checkpoints - inside a synchronous section - runs in parallel to / in the middle of it)
+          /\ h' = [h EXCEPT !.stepafter = @ \/ (Coroutine(Ev.p) /\ After),
+                            !.overlap = @ \/ (Coroutine(Ev.p) /\ segopen[Flav[Ev.p]] > 0)]
           /\ UNCHANGED <<phase, guard, endhow, cleanleft, adoptret, sigint, shut, result, xst, xobs, segopen>>
           \* a payload nobody gave to THIS runtime (it was never adopted here) is started
           /\ marks' = [marks EXCEPT !.straystart = @ \/ pst[Ev.p] = "new"]
           /\ nc' = (nc \/ ~(pst[Ev.p] \in {"submitting", "submitted"} /\ (phase[1] \in {"running", "closing", "closed"} \/ (~Coroutine(Ev.p) /\ phase[1] = "ended" /\ Ev.p \notin Pre /\ Triggered))))
 TStep == /\ Ev.e = "Step"
-         /\ h' = [h EXCEPT !.stepafter = @ \/ (Coroutine(Ev.p) /\ After)]
+         /\ h' = [h EXCEPT !.stepafter = @ \/ (Coroutine(Ev.p) /\ After),
+                           !.overlap = @ \/ (Coroutine(Ev.p) /\ segopen[Flav[Ev.p]] > 0)]
          /\ marks' = [marks EXCEPT !.coroafterblock = IF marks.blocked /\ Coroutine(Ev.p) THEN @ + 1 ELSE @]
          /\ UNCHANGED <<phase, guard, pst, starts, endhow, cleanleft, adoptret, sigint, shut, result, xst, where, xobs, segopen>>
          /\ nc' = (nc \/ ~(pst[Ev.p] = "running" /\ (Coroutine(Ev.p) => ~After \/ marks.aborted)))
